@@ -34,6 +34,8 @@ def step (s : S) (ws : List String) : S × String :=
   | ["writer", tabs, mode, mark, reg] =>
     let st := spawnWriter P s.st (parseList tabs) (mode == "commit") (parseList mark) (parseList reg)
     ({ s with st }, s!"t{s.st.threads.length}")
+  | ["register", "dup"] =>
+    ({ s with st := spawnRegisterDup P s.st }, s!"t{s.st.threads.length}")
   | ["register"] =>
     ({ s with st := spawnRegister P s.st }, s!"t{s.st.threads.length}")
   | ["step", k] =>
